@@ -1,411 +1,9 @@
-//! C06 (and the heap statistics of C07) correspondence: allocation-heavy programs run on the real VM
-//! with the collector driven by hand (hook `verif_gc`), one increment at a time, under explicit
-//! schedules.  Every transition of the real thread is validated against the Lean model:
-//!   * a collector increment must be exactly `gcStep` of the model          (`gc step before after`)
-//!   * a VM instruction (and a host-call service) must satisfy the contract  (`gc mut before after`)
-//! so the whole real execution is a `Run` of the model, to which theorem C06_gc_safe applies.
-//! Independently (search for a concrete failing input): reachability ⊆ heap list is checked on every
-//! snapshot in Rust, and the program's output under each schedule and under the real pacing is
-//! compared with its output with collection disabled.
-use abra_core::vm::{Runtime, RuntimeStatusKind, verif_gc};
-use abra_core::compile_bytecode;
-use std::collections::{HashMap, HashSet};
+//! C06 correspondence driver; the machinery (program generator, manual collector schedules, per-transition
+//! validation requests, reachability oracle) is in harness/src/gcdrive.rs and shared with C07.
+use abra_core::vm::verif_gc;
+use std::collections::HashMap;
+use vh::gcdrive::*;
 use vh::*;
-
-// ---------------------------------------------------------------- program generator
-struct Gen {
-    rng: Rng,
-    src: String,
-    n_str: usize,
-    arrs: Vec<usize>,   // known lengths of string arrays a0..
-    nests: Vec<usize>,  // known lengths of nested arrays b0..
-    n_struct: usize,
-    n_clos: usize,
-    n_tmp: usize,
-}
-
-impl Gen {
-    fn new(seed: u64) -> Gen {
-        let mut g = Gen { rng: Rng::new(seed), src: String::new(), n_str: 0, arrs: vec![], nests: vec![], n_struct: 0, n_clos: 0, n_tmp: 0 };
-        g.src.push_str("type Pt = { name: string, items: array<string> }\n");
-        g.src.push_str("type Tr = | Leaf(string) | Node(array<string>)\n");
-        g.new_str();
-        g
-    }
-    fn new_str(&mut self) -> usize {
-        let k = self.n_str;
-        let n = self.rng.below(100);
-        self.src.push_str(&format!("let s{k} = \"v{k}-\" .. {n}\n"));
-        self.n_str += 1;
-        k
-    }
-    fn some_str(&mut self) -> String {
-        if self.rng.chance(1, 3) || self.n_str == 0 {
-            let k = self.new_str();
-            format!("s{k}")
-        } else {
-            format!("s{}", self.rng.below(self.n_str as u64))
-        }
-    }
-    fn stmt(&mut self) {
-        match self.rng.below(15) {
-            0 => {
-                self.new_str();
-            }
-            1 | 2 => {
-                // fresh array of fresh strings (the array is born before its elements are old)
-                let k = self.arrs.len();
-                let n = self.rng.below(4) as usize;
-                let mut elems = vec![];
-                for j in 0..n {
-                    elems.push(format!("\"e{k}_{j}-\" .. {}", self.rng.below(50)));
-                }
-                self.src.push_str(&format!("let a{k}: array<string> = [{}]\n", elems.join(", ")));
-                self.arrs.push(n);
-            }
-            3 | 4 => {
-                if !self.arrs.is_empty() {
-                    let a = self.rng.below(self.arrs.len() as u64) as usize;
-                    let s = self.some_str();
-                    self.src.push_str(&format!("a{a}.push({s})\n"));
-                    self.arrs[a] += 1;
-                }
-            }
-            5 | 6 => {
-                // pop: moves the only heap reference onto the stack
-                let cands: Vec<usize> = (0..self.arrs.len()).filter(|&i| self.arrs[i] > 0).collect();
-                if !cands.is_empty() {
-                    let a = *self.rng.pick(&cands);
-                    let t = self.n_tmp;
-                    self.n_tmp += 1;
-                    self.src.push_str(&format!("let t{t} = a{a}.pop()\n"));
-                    self.arrs[a] -= 1;
-                    if self.rng.chance(1, 2) {
-                        self.src.push_str(&format!("println(t{t})\n"));
-                    }
-                }
-            }
-            7 => {
-                let cands: Vec<usize> = (0..self.arrs.len()).filter(|&i| self.arrs[i] > 0).collect();
-                if !cands.is_empty() {
-                    let a = *self.rng.pick(&cands);
-                    let i = self.rng.below(self.arrs[a] as u64);
-                    let s = self.some_str();
-                    self.src.push_str(&format!("a{a}[{i}] = {s}\n"));
-                }
-            }
-            8 => {
-                // nested arrays
-                if !self.arrs.is_empty() {
-                    let a = self.rng.below(self.arrs.len() as u64);
-                    if self.nests.is_empty() || self.rng.chance(1, 3) {
-                        let k = self.nests.len();
-                        self.src.push_str(&format!("let b{k}: array<array<string>> = [a{a}]\n"));
-                        self.nests.push(1);
-                    } else {
-                        let b = self.rng.below(self.nests.len() as u64) as usize;
-                        self.src.push_str(&format!("b{b}.push(a{a})\n"));
-                        self.nests[b] += 1;
-                    }
-                }
-            }
-            9 => {
-                let cands: Vec<usize> = (0..self.nests.len()).filter(|&i| self.nests[i] > 0).collect();
-                if !cands.is_empty() {
-                    let b = *self.rng.pick(&cands);
-                    let t = self.n_tmp;
-                    self.n_tmp += 1;
-                    self.src.push_str(&format!("let t{t} = b{b}.pop()\nprintln(t{t}.len())\n"));
-                    self.nests[b] -= 1;
-                }
-            }
-            10 => {
-                if !self.arrs.is_empty() {
-                    let a = self.rng.below(self.arrs.len() as u64);
-                    let k = self.n_struct;
-                    let s = self.some_str();
-                    self.src.push_str(&format!("let p{k} = Pt({s}, a{a})\n"));
-                    self.n_struct += 1;
-                }
-            }
-            11 => {
-                if self.n_struct > 0 {
-                    let p = self.rng.below(self.n_struct as u64);
-                    if self.rng.chance(1, 2) || self.arrs.is_empty() {
-                        let s = self.some_str();
-                        self.src.push_str(&format!("p{p}.name = {s} .. \"!\"\n"));
-                    } else {
-                        let a = self.rng.below(self.arrs.len() as u64);
-                        self.src.push_str(&format!("p{p}.items = a{a}\n"));
-                    }
-                    if self.rng.chance(1, 2) {
-                        self.src.push_str(&format!("println(p{p}.name .. p{p}.items.len())\n"));
-                    }
-                }
-            }
-            12 => {
-                // closure capturing a string; enum with payload
-                let s = self.some_str();
-                let k = self.n_clos;
-                self.n_clos += 1;
-                self.src.push_str(&format!("let f{k} = () -> {s} .. \"?\"\nprintln(f{k}())\n"));
-                let s2 = self.some_str();
-                self.src.push_str(&format!("let e{k} = Tr.Leaf({s2} .. \"#\")\nmatch e{k} {{ .Leaf(x) -> println(x), .Node(y) -> println(y.len()) }}\n"));
-            }
-            13 => {
-                // garbage loop
-                let m = 1 + self.rng.below(6);
-                let t = self.n_tmp;
-                self.n_tmp += 1;
-                self.src.push_str(&format!("var i{t} = 0\nwhile i{t} < {m} {{\n  let g = \"g\" .. i{t}\n  i{t} = i{t} + 1\n}}\n"));
-            }
-            _ => {
-                let s = self.some_str();
-                self.src.push_str(&format!("println({s})\n"));
-            }
-        }
-    }
-    fn finish(mut self) -> String {
-        // observe everything that is still live
-        for a in 0..self.arrs.len() {
-            self.src.push_str(&format!("println(a{a})\n"));
-        }
-        for p in 0..self.n_struct {
-            self.src.push_str(&format!("println(p{p}.name)\nprintln(p{p}.items)\n"));
-        }
-        for t in 0..self.n_str {
-            if t % 3 == 0 {
-                self.src.push_str(&format!("println(s{t})\n"));
-            }
-        }
-        self.src
-    }
-}
-
-fn gen_program(seed: u64, n_stmts: usize) -> String {
-    let mut g = Gen::new(seed);
-    for _ in 0..n_stmts {
-        g.stmt();
-    }
-    g.finish()
-}
-
-/// the reproducer of defect D22 (fixed): must keep printing hello-7
-const D22: &str = "let arr = [\"hello-\" .. 7]\nlet popped = arr.pop()\nvar i = 0\nwhile i < 50 {\n  let s = \"x\" .. i\n  i = i + 1\n}\nprintln(popped)\n";
-
-// ---------------------------------------------------------------- snapshots on the Rust side
-struct Snap {
-    heap: Vec<(usize, bool, Vec<usize>)>,
-    roots: Vec<usize>,
-    phase: char,
-}
-
-fn parse_snap(s: &str) -> Snap {
-    let mut heap = vec![];
-    let mut roots = vec![];
-    let mut phase = '?';
-    for w in s.split(' ') {
-        if let Some(p) = w.strip_prefix("phase=") {
-            phase = p.chars().next().unwrap_or('?');
-        } else if let Some(h) = w.strip_prefix("heap=") {
-            for e in h.split(';').filter(|e| !e.is_empty()) {
-                let parts: Vec<&str> = e.split(':').collect();
-                let kids = parts[2].split(',').filter(|x| !x.is_empty()).map(|x| x.parse().unwrap()).collect();
-                heap.push((parts[0].parse().unwrap(), parts[1] == "1", kids));
-            }
-        } else if let Some(r) = w.strip_prefix("roots=") {
-            roots = r.split(',').filter(|x| !x.is_empty()).map(|x| x.parse().unwrap()).collect();
-        }
-    }
-    Snap { heap, roots, phase }
-}
-
-/// executable statement of the property on one snapshot: every address reachable from the roots
-/// is in the heap list; returns a dangling address if there is one
-fn dangling(s: &Snap) -> Option<usize> {
-    let map: HashMap<usize, &Vec<usize>> = s.heap.iter().map(|(a, _, k)| (*a, k)).collect();
-    let mut seen: HashSet<usize> = HashSet::new();
-    let mut work: Vec<usize> = s.roots.clone();
-    while let Some(a) = work.pop() {
-        if !seen.insert(a) {
-            continue;
-        }
-        match map.get(&a) {
-            None => return Some(a),
-            Some(k) => work.extend(k.iter().cloned()),
-        }
-    }
-    None
-}
-
-/// addresses are renamed by first appearance so that request lines do not depend on the allocator
-struct Renamer {
-    map: HashMap<String, usize>,
-}
-impl Renamer {
-    fn canon(&mut self, snap: &str) -> String {
-        let mut out = String::with_capacity(snap.len());
-        let mut num = String::new();
-        let mut in_field = false; // inside heap=/roots=/gray= payload
-        let flush = |num: &mut String, out: &mut String, map: &mut HashMap<String, usize>, addr: bool| {
-            if !num.is_empty() {
-                if addr && num.len() > 6 {
-                    let n = map.len() + 1;
-                    let id = *map.entry(num.clone()).or_insert(n);
-                    out.push_str(&id.to_string());
-                } else {
-                    out.push_str(num);
-                }
-                num.clear();
-            }
-        };
-        for c in snap.chars() {
-            if c.is_ascii_digit() {
-                num.push(c);
-            } else {
-                flush(&mut num, &mut out, &mut self.map, in_field);
-                if c == '=' {
-                    in_field = true;
-                }
-                if c == ' ' {
-                    in_field = false;
-                }
-                out.push(c);
-            }
-        }
-        flush(&mut num, &mut out, &mut self.map, in_field);
-        out
-    }
-}
-
-// ---------------------------------------------------------------- schedules
-#[derive(Clone, Debug)]
-enum Sched {
-    /// no collection before VM step `start`, then `k` increments after every VM step
-    From { start: u64, k: u32 },
-    /// after each VM step: with probability num/8 run 1..=max increments
-    Random { num: u64, max: u32, seed: u64 },
-}
-
-struct RunOut {
-    out: String,
-    outcome: String,
-    cases: Vec<(String, String)>,
-    spec: Vec<String>,
-    vm_steps: u64,
-    gc_steps: u64,
-    cycles: u64,
-    max_heap_objs: usize,
-}
-
-fn run_scheduled(src: &str, sched: &Sched, validate: bool, max_steps: u64) -> RunOut {
-    let mut ro = RunOut { out: String::new(), outcome: String::new(), cases: vec![], spec: vec![], vm_steps: 0, gc_steps: 0, cycles: 0, max_heap_objs: 0 };
-    let program = match compile_bytecode("main.abra", provider(src, &[])) {
-        Ok(p) => p,
-        Err(e) => {
-            ro.outcome = format!("rejected {}", e.to_string().lines().next().unwrap_or(""));
-            return ro;
-        }
-    };
-    verif_gc::set_manual(true);
-    let mut rt = Runtime::new(program);
-    let mut rn = Renamer { map: HashMap::new() };
-    let mut rng = Rng::new(match sched { Sched::Random { seed, .. } => *seed, _ => 0 });
-    let snap = |rt: &mut Runtime| -> Option<String> { rt.iter_threads_mut().next().map(|t| verif_gc::snapshot(t)) };
-    let mut check_snap = |s: &str, what: &str, ro: &mut RunOut| {
-        let p = parse_snap(s);
-        ro.max_heap_objs = ro.max_heap_objs.max(p.heap.len());
-        if let Some(a) = dangling(&p) {
-            ro.spec.push(format!("{what}: address {a} is reachable from the roots but not allocated (phase {})", p.phase));
-        }
-    };
-    loop {
-        let before = snap(&mut rt);
-        let status = rt.run_n_steps(1);
-        ro.vm_steps += status.steps_consumed as u64;
-        let done = match &status.kind {
-            RuntimeStatusKind::Done => Some("done".to_string()),
-            RuntimeStatusKind::MainThreadError(e) => Some(format!("error:{}", error_kind(&e.to_string()))),
-            _ => None,
-        };
-        if let Some(d) = done {
-            ro.outcome = d;
-            break;
-        }
-        let after = snap(&mut rt);
-        if let (Some(b), Some(a)) = (&before, &after) {
-            check_snap(a, "after a VM instruction", &mut ro);
-            if validate {
-                ro.cases.push((format!("gc mut {} {}", rn.canon(b), rn.canon(a)), "ok".into()));
-            }
-        }
-        // host calls (print): the host pops its argument from the operand stack
-        if matches!(status.kind, RuntimeStatusKind::PendingHostFunc) {
-            let b = snap(&mut rt);
-            service_host(&mut rt, &mut ro.out);
-            let a = snap(&mut rt);
-            if let (Some(b), Some(a)) = (&b, &a) {
-                if validate {
-                    ro.cases.push((format!("gc mut {} {} #host", rn.canon(b), rn.canon(a)), "ok".into()));
-                }
-            }
-        }
-        // collector increments
-        let k = match sched {
-            Sched::From { start, k } => if ro.vm_steps >= *start { *k } else { 0 },
-            Sched::Random { num, max, .. } => if rng.below(8) < *num { 1 + rng.below(*max as u64) as u32 } else { 0 },
-        };
-        if validate {
-            for _ in 0..k {
-                let Some(t) = rt.iter_threads_mut().next() else { break };
-                let b = verif_gc::snapshot(t);
-                verif_gc::step(t);
-                let a = verif_gc::snapshot(t);
-                ro.gc_steps += 1;
-                if b.starts_with("phase=s") && a.starts_with("phase=i") {
-                    ro.cycles += 1;
-                }
-                check_snap(&a, "after a collector increment", &mut ro);
-                ro.cases.push((format!("gc step {} {}", rn.canon(&b), rn.canon(&a)), "ok".into()));
-            }
-        } else if k > 0 {
-            // sweep runs: no per-increment snapshots unless the increment freed something
-            if let Some(t) = rt.iter_threads_mut().next() {
-                for _ in 0..k {
-                    let n0 = verif_gc::heap_bytes(t).1;
-                    verif_gc::step(t);
-                    ro.gc_steps += 1;
-                    if verif_gc::heap_bytes(t).1 < n0 {
-                        let a = verif_gc::snapshot(t);
-                        check_snap(&a, "after a collector increment that freed an object", &mut ro);
-                        if !ro.spec.is_empty() {
-                            break;
-                        }
-                    }
-                }
-            }
-        }
-        if !ro.spec.is_empty() {
-            // stop before the program touches reclaimed memory
-            ro.outcome = "stopped: reachable object reclaimed".into();
-            verif_gc::set_manual(false);
-            std::mem::forget(rt);
-            return ro;
-        }
-        if ro.vm_steps > max_steps {
-            ro.outcome = "timeout".into();
-            break;
-        }
-    }
-    verif_gc::set_manual(false);
-    ro
-}
-
-/// reference: collection disabled entirely
-fn run_nogc(src: &str, max_steps: u64) -> (String, String) {
-    let r = run_scheduled(src, &Sched::From { start: u64::MAX, k: 0 }, false, max_steps);
-    (r.out, r.outcome)
-}
 
 fn main() {
     if std::env::args().nth(1).as_deref() == Some("--paced") {
@@ -460,7 +58,7 @@ fn main() {
             Ok(r) => r,
             Err(p) => {
                 verif_gc::set_manual(false);
-                RunOut { out: String::new(), outcome: format!("crash:{}", panic_msg(p)), cases: vec![], spec: vec![], vm_steps: 0, gc_steps: 0, cycles: 0, max_heap_objs: 0 }
+                RunOut { out: String::new(), outcome: format!("crash:{}", panic_msg(p)), cases: vec![], spec: vec![], vm_steps: 0, gc_steps: 0, cycles: 0, max_heap_objs: 0, cycle_spec: vec![], cycles_checked: 0 }
             }
         }
     });
